@@ -46,12 +46,15 @@ BlockSeqs(n) == UNION { [1..m -> BlockS] : m \in 0..n }
 Bodies == { [attrs |-> a, blocks |-> b] : a \in AttrSeqs(IF Quick THEN 2 ELSE 3), b \in BlockSeqs(IF Quick THEN 1 ELSE 2) }
 
 Init == IF Mode = "cons" THEN case \in { [mode |-> "cons", cons |-> c, prefill |-> p] : c \in Cons, p \in Flags }
-        ELSE case \in { [mode |-> "body", labels |-> nl, body |-> b] : nl \in {1, 2}, b \in Bodies }
+        \* dk = how many of the labels (the first dk) are dependency keys: the block-type snippet visits them all
+        ELSE case \in { [mode |-> "body", labels |-> nl, dk |-> dk, body |-> b] : nl \in {1, 2, 3}, dk \in 1..3, b \in Bodies } /\ case.dk <= case.labels
 Next == UNCHANGED vars
 Spec == Init /\ [][Next]_vars
 
 ECD_OK == case.mode = "cons" => StopsOK(ECD(case.cons, 1, case.prefill).stops)
 Label_OK == case.mode = "body" => StopsOK(LabelSnippet(case.labels, case.body))
+Block_OK == case.mode = "body" => StopsOK(BlockSnippet(case.labels, case.dk))
+OldBlock_OK == case.mode = "body" => StopsOK(OldBlockSnippet(case.labels, case.dk))   \* must be rejected (dk >= 2)
 \* sensitivity: the repaired defect (placeholder++ per attribute, not threaded out of nested blocks) must be rejected
 RECURSIVE OldReqFields(_, _), OldReqAttrs(_, _, _, _), OldReqBlocks(_, _, _, _)
 OldReqAttrs(as, i, ph, acc) == IF i > Len(as) THEN <<acc, ph>> ELSE IF ~as[i].req THEN OldReqAttrs(as, i + 1, ph, acc)
